@@ -1,9 +1,12 @@
 import RTV.Drv.Proto
 import RTV.Model.WellFormed
+import RTV.Model.Assemble
 /-! Driver handlers for the C10/C11 spec predicates.
   wf <typeName cps> <n> (<type> <timex> <value|?> <start|?> <end|?>)*
       -> `<typeNameOK>` then per value ` <shapeOK><definiteOK><tripleOK><sentinelOK>` (bits)
-  fmtdate y m d -> cps ; fmttime h m s -> cps ; tspan secs -> cps -/
+  fmtdate y m d -> cps ; fmttime h m s -> cps ; tspan secs -> cps
+  assemble <dtype> <timex> <mod> <hasMod 0|1> <past: single|? start|? end|? duration|?> <future: the same four>
+      -> `err:KeyError` | <type name cps> TAB (<type>~<timex>~<value>~<start>~<end>) joined by `;` (a field: `absent` | `null` | cps) -/
 namespace RTV.Drv
 open RTV.WF RTV.Cal
 
@@ -16,8 +19,19 @@ def takeValues : Nat → List String → List Value
 
 def bit (b : Bool) : String := if b then "1" else "0"
 
+def showAValue (v : AValue) : String :=
+  let f (o : Option (Option Str)) : String := match o with
+    | none => "absent" | some none => "null" | some (some s) => showCps s
+  "~".intercalate [showCps v.type, showCps v.timex, f v.value, f v.start, f v.stop]
+
 def dispatchWF (op : String) (args : List String) : Option String :=
   match op, args with
+  | "assemble", [t, x, m, hm, p1, p2, p3, p4, f1, f2, f3, f4] =>
+    let slot : ASlot := ⟨parseCps t, parseCps x, parseCps m, ⟨optField p1, optField p2, optField p3, optField p4⟩,
+                         ⟨optField f1, optField f2, optField f3, optField f4⟩⟩
+    (match resolveSlot slot (hm == "1") with
+     | none => some "err:KeyError"
+     | some vs => some (showCps (slotTypeName slot (hm == "1")) ++ "\t" ++ ";".intercalate (vs.map showAValue)))
   | "wf", tn :: n :: rest =>
     let vs := takeValues (parseNat n) rest
     let head := bit (typeNameOK (parseCps tn) vs)
